@@ -80,10 +80,37 @@ class TraceProp(Prop):
         spec = proggen.random_spec(rng, shapes=self.shapes, plugins=self.pick_plugins(rng))
         n = rng.choice(self.steps_quick) if tier == 'quick' else rng.choice((10, 20, 40, 60))
         prog = proggen.random_program(rng, spec, n, weights=self.weights)
-        return {'spec': spec, 'autoflush': rng.random() < 0.3, 'program': prog}
+        case = {'spec': spec, 'autoflush': rng.random() < 0.3, 'program': prog}
+        import os
+        if rng.random() < float(os.environ.get('VERIF_JOIN_P', '0.1')):
+            # session joined into an external connection-level transaction (SQLAlchemy's test-suite recipe)
+            case['join_mode'] = 'create_savepoint'
+        return case
 
     def pick_plugins(self, rng):
         return self.plugins
+
+    def directed(self, case, obs, mismatch):
+        """the history up to the point of disagreement (and the whole history), continued with more versioned work"""
+        import re
+        prog = case['program']
+        m = re.search(r'\(step (\d+) ', mismatch.get('stream') or '')
+        cut = int(m.group(1)) + 1 if m else len(prog)
+        info = proggen.entity_info(case['spec'])
+        out = []
+        for cname in list(info)[:2]:
+            pk = [7] * len(info[cname]['pk'])
+            attrs = info[cname]['attrs']
+            if not attrs:
+                continue
+            a = attrs[0][0]
+            conts = [[['add', cname, pk, {a: 1}], ['commit']],
+                     [['add', cname, pk, {a: 1}], ['flush'], ['set', cname, pk, a, 2], ['commit'], ['set', cname, pk, a, 3], ['commit']],
+                     [['add', cname, pk, {a: 1}], ['flush'], ['rollback'], ['add', cname, pk, {a: 2}], ['commit'], ['set', cname, pk, a, 3], ['commit']]]
+            for base in (prog[:cut], prog):
+                for c in conts:
+                    out.append(dict(case, program=base + c))
+        return out
 
     def gen(self, rng, tier):
         for _ in range(self.counts(tier)):
@@ -194,10 +221,14 @@ class TraceProp(Prop):
         return out
 
     def on_error(self, case, obs, out):
-        """A step that raised ends the program.  Errors raised by continuum itself are violations
-        of C07 (and C10 for association rows); the other properties speak about the states after
-        successful commits, so for them the case simply ends early (tagged in the distribution)."""
-        pass
+        """A step that raised ends the program.  An error that comes out of continuum's own code means
+        that the transaction could not be versioned at all (no version row, no transaction record for
+        work the application did): reported as `<id>.continuum_raised:<Type>` with the program as the
+        failing input, like an exception escaping the whole run.  Errors of the application / database
+        (not passing through continuum) just end the case early (tagged in the distribution)."""
+        err = obs['error']
+        if err.get('in_continuum'):
+            out.violations.append({'clause': '%s.continuum_raised:%s' % (self.id, err['type']), 'detail': err})
 
     def extra_judge(self, case, obs, out):
         pass
